@@ -120,6 +120,11 @@ def run(ctx):
                 c = {"fn": "gen", "name": name, "args": G.enc_args(a), "ensure_bounded": eb, "return_scale": eb, "chebyshev_basis": True,
                      "cheb_samples": ns, "timeout": 300}
                 cases.append(c)
+        # directed: every option path of the generators with two call sites (rect, and through it 1/x*rect) with a non-default number of samples
+        for eb_, rs_ in ((True, False), (False, False), (False, True), (True, True)):
+            a_ = {"degree": 16, "delta": 0.3, "kappa": 5, "epsilon": 0.1}
+            cases.append({"fn": "gen", "name": "rect", "args": G.enc_args(a_), "ensure_bounded": eb_, "return_scale": rs_, "chebyshev_basis": True,
+                          "cheb_samples": 33, "timeout": 300})
         # directed: as many samples as coefficients (interpolation), odd and even generators, incl. degree 19 with the default 20 samples
         for name, a in (("sign", {"degree": 19, "delta": 2.0}), ("linamp", {"degree": 19, "gamma": 0.25, "kappa": 10}), ("sign", {"degree": 29, "delta": 5.0}),
                         ("gibbs", {"degree": 24, "beta": 2.0}), ("thresh", {"degree": 28, "delta": 4.0})):
@@ -228,6 +233,11 @@ def run(ctx):
                 continue
             ref = [float.fromhex(x) for x in rr["ok"]["coef"]]
             scale = float.fromhex(r["ok"]["scale"]) if r["ok"]["scale"] is not None else 1.0
+            if r["ok"]["scale"] is None and c["ensure_bounded"] and len(cf) == len(ref):
+                # bounded output without the scale: the statement is "a positive multiple of the fit" - the multiple is the projection on the fit
+                par_ = name in G.ODD
+                den_ = sum(ref[j] * ref[j] for j in range(len(ref)) if (j % 2 == 1) == par_)
+                scale = (sum(cf[j] * ref[j] for j in range(len(ref)) if (j % 2 == 1) == par_) / den_) if den_ > 0 else 1.0
             if not (scale > 0):
                 ctx.fail(site, c, "non-positive scale %r" % scale)
                 continue
